@@ -187,6 +187,13 @@ func hostHasOtherPort(allConfigs []*SiteConfig, thisConfigIdx int, otherPort str
 // to listen on certmagic.HTTPPort. The TLS field of cfg must not be nil.
 func redirPlaintextHost(cfg *SiteConfig) *SiteConfig {
 	redirPort := cfg.Addr.Port
+	if redirPort == "" && (cfg.TLS.Manual || cfg.TLS.SelfSigned) &&
+		(cfg.TLS.Manager == nil || cfg.TLS.Manager.OnDemand == nil) {
+		// a site with its own certificate and no port of its own is
+		// not moved to the HTTPS port (see MakeServers): it will
+		// listen on the default port, and that is where to redirect
+		redirPort = Port
+	}
 	if redirPort == strconv.Itoa(certmagic.HTTPSPort) {
 		// By default, HTTPSPort should be DefaultHTTPSPort,
 		// which of course doesn't need to be explicitly stated
